@@ -37,7 +37,10 @@ ASSUMPTIONS = [
 FLOORS = {"programs:op-on-id-held-by-other": 0.05, "programs:drop-then-lookup": 0.1, "programs:failing-replace-registered": 0.08}
 
 LEAF_CLASSES = ["LeafA", "LeafB", "SubLeafA", "Falsy", "SlotLeaf", "Checked", "SameNameA", "SameNameB"]
-ORIGINS = [["no"], ["no"], ["code", 0, 0, 1], ["gen", 1], ["multi", [["code", 0, 0, 1], ["gen", 1]]]]
+ORIGINS = [["no"], ["no"], ["code", 0, 0, 1], ["gen", 1], ["multi", [["code", 0, 0, 1], ["gen", 1]]],
+           # two merged origins over the same positions and the same two sources that repeat a different one
+           ["multi", [["code", 0, 0, 3], ["code", 1, 5, 8], ["code", 0, 10, 12]]],
+           ["multi", [["code", 0, 0, 3], ["code", 1, 5, 8], ["code", 1, 10, 12]]]]
 
 
 def _walk(n: Any, seen: dict) -> None:
@@ -52,6 +55,7 @@ class Machine:
     def __init__(self, digest: int, lab: Labels) -> None:
         from pyoak import config
 
+        self.digest = digest
         config.ID_DIGEST_SIZE = digest
         self.lab = lab
         self.sources = og.make_sources()
@@ -110,6 +114,13 @@ class Machine:
         s = self.sig(n)
         if s in sigs_before:
             return
+        if self.digest >= 8 and "_" in n.id:
+            # a collision suffix although no registered node equals the new one: its plain id is held by
+            # an unequal node, i.e. the id depends on an unrelated registered node
+            holder = self._holder_before.get(n.id.split("_")[0])
+            require(holder is None or self.sig(holder) == s, "id-not-deterministic",
+                    f"step {self.step_no}: a new {type(n).__name__} got the suffixed id {n.id} while no registered node "
+                    f"has its class, origin, content and children (the plain id is held by an unequal {type(holder).__name__})")
         exp = self.memo.get(s)
         if exp is not None:
             holder = self._holder_before.get(exp)
@@ -117,6 +128,13 @@ class Machine:
                 require(n.id == exp, "id-not-deterministic",
                         f"step {self.step_no}: {type(n).__name__} got {n.id}, earlier {exp} (id was free)")
                 self.lab.tag("id-determinism-checked")
+            elif self.digest >= 8 and holder is not n and self.sig(holder) != s:
+                # the id this node gets when created alone is held by a node of *another* class / origin /
+                # content / children: no registered node equals the new one, so it still has to get that id
+                # (which, 8-byte digests not colliding by chance, an unequal node cannot hold)
+                require(False, "id-not-deterministic",
+                        f"step {self.step_no}: the id {exp} a {type(n).__name__} gets when created alone is held by an "
+                        f"unequal registered {type(holder).__name__}; the new node got {n.id}")
         elif "_" not in n.id:
             self.memo[s] = n.id
 
@@ -300,6 +318,33 @@ class Machine:
             self.pool.append(res)
             self.note_created([res])
             self.lab.tag("roundtrip")
+        elif kind == "stale_and_rebuilt":
+            # a subtree is given up as a whole, rebuilt (the copy takes over the freed ids), both are put
+            # under one new parent - the stale one first - and the parent is detached: nothing below it
+            # may stay registered
+            x = self.sel(o[1])
+            if x is None or not T.live_children(x):
+                return
+            seen_x: dict = {}
+            _walk(x, seen_x)
+            x.detach()
+            for d in seen_x.values():
+                if self.registered(d):
+                    del self.reg[d.id]
+            dup = x.duplicate()
+            self.note_created([dup])
+            pair = (x, dup) if o[2] % 4 else (dup, x)
+            parent = M.cls("Mixed")(child=None, items=pair, v=o[2] % 3)
+            self.note_created([parent])
+            self.pool.append(parent)
+            if o[2] % 2:
+                seen_p: dict = {}
+                _walk(parent, seen_p)
+                parent.detach()
+                for d in seen_p.values():
+                    if self.registered(d):
+                        del self.reg[d.id]
+            self.lab.tag("stale-subtree-next-to-its-rebuilt-copy")
         elif kind == "vals_recreate":
             # a node whose property is a set (of ints / strings / sets) is created, given up, and created
             # again from an equal set built in another element order: the id is free, so it is the same
@@ -464,7 +509,7 @@ def check_program(data: dict, lab: Labels) -> None:
 
 def st_program(ctx: Ctx):
     sel = st.integers(0, 50)
-    small = st.integers(0, 5)
+    small = st.integers(0, 7)
     new_leaf = st.tuples(st.just("new_leaf"), small, small, small).map(list)
     new_parent = st.tuples(st.just("new_parent"), small, st.lists(sel, min_size=1, max_size=3), small, small).map(list)
     simple = {
@@ -485,7 +530,8 @@ def st_program(ctx: Ctx):
     # a parent is given up (only itself) and read back while its children are still registered
     reread = st.tuples(new_parent, small).map(lambda t: [t[0], ["detach_self", -1], ["roundtrip", -1, t[1]]])
     vals_recreate = st.tuples(st.just("vals_recreate"), small, small, small).map(list)
-    one = st.one_of(new_leaf, new_leaf, new_parent, new_parent, *simple.values(), simple["twin"], simple["drop"], vals_recreate).map(lambda o: [o])
+    stale = st.tuples(st.just("stale_and_rebuilt"), sel, small).map(list)
+    one = st.one_of(new_leaf, new_leaf, new_parent, new_parent, *simple.values(), simple["twin"], simple["drop"], vals_recreate, stale).map(lambda o: [o])
     step = st.one_of(one, one, one, one, one, macro, reread)
     prog = st.lists(step, min_size=6, max_size=ctx.pick(18, 24)).map(lambda ss: [o for s in ss for o in s][:40])
     start = st.lists(st.one_of(new_leaf, new_leaf, new_parent), min_size=2, max_size=4)
